@@ -1,8 +1,6 @@
 package sym
 
 import (
-	"sort"
-	"strconv"
 	"fmt"
 	"go/constant"
 	"go/token"
@@ -10,6 +8,8 @@ import (
 	"math"
 	"math/big"
 	"os"
+	"sort"
+	"strconv"
 	"strings"
 	"time"
 
@@ -23,78 +23,79 @@ type fnInfo struct {
 
 // EntrySpec configures one harness entry.
 type EntrySpec struct {
-	Name        string            `json:"name"`
-	Ref         string            `json:"ref"` // take this entry's definition from harness/<ref>.json
-	Pkg         string            `json:"pkg"`
-	Bounds      map[string]int    `json:"bounds"`
-	Thorough    map[string]int    `json:"thorough"`
-	Stubs       map[string]string `json:"stubs"`
-	Unwind      int               `json:"unwind"`
-	MaxSteps    int               `json:"max_steps"`
-	MaxPaths    int               `json:"max_paths"`
-	Solver      string            `json:"solver"`
-	AbstractMul bool              `json:"abstract_mul"`
-	AllowPanic  bool              `json:"allow_panic"`
-	ThoroughOnly bool             `json:"thorough_only"`
-	InlineGo    []string          `json:"inline_go"`
-	DeferGo     []string          `json:"defer_go"`
-	EnvChans    bool              `json:"env_chans"`
-	Tags        []string          `json:"tags"`
-	NoInit      bool              `json:"no_init"`
-	Family      string            `json:"family"`
-	Instances   []map[string]int  `json:"instances"`
-	ThoroughInstances []map[string]int `json:"thorough_instances"`
-	TimeoutS    int               `json:"timeout_s"`
-	OnLock      string            `json:"on_lock"`
-	AllowBlock  bool              `json:"allow_block"`
-	AllowBlockIn []string         `json:"allow_block_in"`
+	Name              string            `json:"name"`
+	Ref               string            `json:"ref"` // take this entry's definition from harness/<ref>.json
+	Pkg               string            `json:"pkg"`
+	Bounds            map[string]int    `json:"bounds"`
+	Thorough          map[string]int    `json:"thorough"`
+	Stubs             map[string]string `json:"stubs"`
+	Unwind            int               `json:"unwind"`
+	MaxSteps          int               `json:"max_steps"`
+	MaxPaths          int               `json:"max_paths"`
+	Solver            string            `json:"solver"`
+	AbstractMul       bool              `json:"abstract_mul"`
+	AllowPanic        bool              `json:"allow_panic"`
+	ThoroughOnly      bool              `json:"thorough_only"`
+	InlineGo          []string          `json:"inline_go"`
+	DeferGo           []string          `json:"defer_go"`
+	EnvChans          bool              `json:"env_chans"`
+	Tags              []string          `json:"tags"`
+	NoInit            bool              `json:"no_init"`
+	Family            string            `json:"family"`
+	Instances         []map[string]int  `json:"instances"`
+	ThoroughInstances []map[string]int  `json:"thorough_instances"`
+	TimeoutS          int               `json:"timeout_s"`
+	OnLock            string            `json:"on_lock"`
+	AllowBlock        bool              `json:"allow_block"`
+	AllowBlockIn      []string          `json:"allow_block_in"`
 }
 
 type Exec struct {
-	Prog     *ssa.Program
-	Ctx      *Ctx
-	Spec     *EntrySpec
-	Bounds   map[string]int
-	MaxConc  int
-	fnInfos  map[*ssa.Function]*fnInfo
-	globalID map[*ssa.Global]int
-	globalByID map[int]*ssa.Global
-	nextGlobal int
-	pkgInit  map[*ssa.Package]int // 0 not run, 1 running, 2 ok, 3 failed
-	varCache map[int][]int
-	ufIdx    map[string]int
-	stateSeq int
-	crossN   int
-	HarnessPkg *ssa.Package
-	intrinsics map[string]intrinsic
-	rtErrType  types.Type
+	Prog            *ssa.Program
+	Ctx             *Ctx
+	Spec            *EntrySpec
+	Bounds          map[string]int
+	MaxConc         int
+	fnInfos         map[*ssa.Function]*fnInfo
+	globalID        map[*ssa.Global]int
+	globalByID      map[int]*ssa.Global
+	nextGlobal      int
+	pkgInit         map[*ssa.Package]int // 0 not run, 1 running, 2 ok, 3 failed
+	varCache        map[int][]int
+	ufIdx           map[string]int
+	stateSeq        int
+	crossN          int
+	crossUnknownRun int
+	HarnessPkg      *ssa.Package
+	intrinsics      map[string]intrinsic
+	rtErrType       types.Type
 	// statistics
-	Steps       int
-	States      int
-	Forks       int
-	FnsEntered  map[string]bool
-	Results     *EntryResult
-	baseHeap    map[int]*HObj
-	baseNext    int
-	inInit      bool
-	ForkSites   map[string]int
-	extra       map[string]*Solver
-	primary     string
-	qcache      map[string]Result
-	CacheHits   int
-	dumpSeq     int
+	Steps                     int
+	States                    int
+	Forks                     int
+	FnsEntered                map[string]bool
+	Results                   *EntryResult
+	baseHeap                  map[int]*HObj
+	baseNext                  int
+	inInit                    bool
+	ForkSites                 map[string]int
+	extra                     map[string]*Solver
+	primary                   string
+	qcache                    map[string]Result
+	CacheHits                 int
+	dumpSeq                   int
 	fastTimeout, finalTimeout time.Duration
-	NoIfConv    bool
-	IfConverted int
-	LabelPrefixes []string
-	baseGhost   map[string]Value
-	baseOnce    map[string]bool
-	QuerySolver time.Duration
-	Trace       bool
-	final       []*Solver
-	deadline    time.Time
-	SpecMaxConc int
-	Tier        string
+	NoIfConv                  bool
+	IfConverted               int
+	LabelPrefixes             []string
+	baseGhost                 map[string]Value
+	baseOnce                  map[string]bool
+	QuerySolver               time.Duration
+	Trace                     bool
+	final                     []*Solver
+	deadline                  time.Time
+	SpecMaxConc               int
+	Tier                      string
 }
 
 func (ex *Exec) info(fn *ssa.Function) *fnInfo {
@@ -591,7 +592,7 @@ func (ex *Exec) crossCheck(as []*Term) Result {
 		s := ex.extra[key]
 		if s == nil {
 			var err error
-			s, err = NewSolver(ex.Ctx, kind, 20*time.Second)
+			s, err = NewSolver(ex.Ctx, kind, 10*time.Second)
 			if err != nil {
 				continue
 			}
